@@ -163,20 +163,29 @@ def rule_select(ctx, res, loop, sections):
     in_loop = set(id(n) for s in loop.body for n in walk_own(s))
     # classify tests in the loop
     given_tests, empty_tests = [], []
+    from .. import norm
+    given_label = 'true'
     for n in cfg.nodes:
         if n.kind != 'test' or id(n.ast) not in in_loop:
             continue
-        t = n.ast
-        # getattr(args, section, None) is not None
+        t = norm.subst_locals(f.node, n.ast)
+        neg = False
+        while isinstance(t, ast.UnaryOp) and isinstance(t.op, ast.Not):
+            t, neg = t.operand, not neg
+        # getattr(args, section, None) is [not] None
         if isinstance(t, ast.Compare) and len(t.ops) == 1 and \
-                isinstance(t.ops[0], ast.IsNot) and \
+                isinstance(t.ops[0], (ast.IsNot, ast.Is)) and \
                 _is_getattr(t.left, argname) and \
                 isinstance(t.left.args[1], ast.Name) and \
                 t.left.args[1].id == sec and \
                 isinstance(t.comparators[0], ast.Constant) and \
                 t.comparators[0].value is None:
+            if not given_tests:
+                pos = isinstance(t.ops[0], ast.IsNot) != neg
+                given_label = 'true' if pos else 'false'
             given_tests.append(n)
-        elif _is_getattr(t, argname) and _is_empty_key(t.args[1], sec):
+        elif _is_getattr(t, argname) and _is_empty_key(t.args[1], sec) \
+                and not neg:
             empty_tests.append(n)
     if not given_tests:
         res.violation('R-C13-select', qual, 'source-given test',
@@ -223,6 +232,7 @@ def rule_select(ctx, res, loop, sections):
                         isinstance(t.value, ast.Name) and t.value.id == result:
                     stores.append((n, ast.Constant(t.attr), n.value))
     n_src = n_empty = 0
+    expanded = []
     for (node, key, val) in stores:
         for _ in range(3):      # see through single-assignment local aliases
             if isinstance(val, ast.Name):
@@ -230,18 +240,47 @@ def rule_select(ctx, res, loop, sections):
                 if len(asg) == 1 and asg[0][1] is not None and \
                         id(asg[0][0]) in in_loop:
                     val = asg[0][1]
+        if isinstance(val, ast.Name):
+            asg = [(st_, v_) for (st_, v_) in assignments_to(f.node, val.id)
+                   if v_ is not None and id(st_) in in_loop]
+            if len(asg) > 1 and len(asg) == len(
+                    assignments_to(f.node, val.id)):
+                # several definitions reach the store: judge each where it
+                # is made (its own guards), the store itself being common
+                for (st_, v_) in asg:
+                    expanded.append((st_, key, v_))
+                continue
+        expanded.append((node, key, val))
+    for (node, key, val) in expanded:
+        for _ in range(3):
+            if isinstance(val, ast.Name):
+                asg = assignments_to(f.node, val.id)
+                if len(asg) == 1 and asg[0][1] is not None and \
+                        id(asg[0][0]) in in_loop:
+                    val = asg[0][1]
         loc = f.module.loc(node)
         cnodes = cfg.nodes_of(node)
-        under_given = all(cfg.edge_dominates(given, 'true', c) for c in cnodes)
+        under_given = all(cfg.edge_dominates(given, given_label, c)
+                          for c in cnodes)
         sym = isinstance(key, ast.Name) and key.id == sec
         const_key = key.value if isinstance(key, ast.Constant) else None
         inst = 'result.{} := {}'.format(
             '<section>' if sym else const_key, unparse(val, 60))
         # value classification
-        if _is_getattr(val) and isinstance(val.args[0], ast.Name):
-            src = val.args[0].id
+        if _is_getattr(val) and isinstance(val.args[0], (ast.Name,
+                                                         ast.Call)):
             same = ast.dump(val.args[1]) == ast.dump(key)
-            origins = _origin(model, f, src)
+            if isinstance(val.args[0], ast.Name):
+                src = val.args[0].id
+                origins = _origin(model, f, src)
+            else:
+                src = unparse(val.args[0], 40)
+                c_ = val.args[0]
+                kind_, targets_ = model.resolve_call(f, c_)
+                quals_ = {t.qual for t in targets_ if isinstance(t, FuncInfo)}
+                origins = []
+                if 'pico8.game.file:from_file' in quals_ and c_.args:
+                    origins = [('from_file', c_.args[0])]
             if origins and all(o and o[0] == 'from_file' for o in origins):
                 arg_ok = all(isinstance(o[1], ast.Name) and o[1].id in fn_names
                              for o in origins)
@@ -259,8 +298,9 @@ def rule_select(ctx, res, loop, sections):
                 under_empty = any(
                     all(cfg.edge_dominates(e, 'true', c) for c in cnodes)
                     for e in empty_tests)
-                not_given = all(cfg.edge_dominates(given, 'false', c)
-                                for c in cnodes)
+                not_given = all(cfg.edge_dominates(
+                    given, 'false' if given_label == 'true' else 'true', c)
+                    for c in cnodes)
                 ok = same and sym and under_empty and not_given
                 n_empty += 1
                 res.check(ok, 'R-C13-select', qual, inst,
@@ -276,6 +316,14 @@ def rule_select(ctx, res, loop, sections):
                               src), loc)
             continue
         # result.lua = <parsed .lua file>
+        if sym and not _is_getattr(val):
+            for cand in ('lua',):
+                g_eq = [n for n in cfg.nodes
+                        if n.kind == 'test' and id(n.ast) in in_loop and
+                        _mentions_eq(n.ast, sec, cand)]
+                if any(all(cfg.edge_dominates(g, 'true', c) for c in cnodes)
+                       for g in g_eq):
+                    const_key = cand
         if const_key == 'lua' or (sym is False and const_key):
             guards_eq = [
                 n for n in cfg.nodes
@@ -371,17 +419,32 @@ def _mentions_eq(test, sec, const):
 def _derives_from_named_file(model, f, val, fn_names, result, attr):
     """val is computed from a stream opened on the named file, or from the
     previous result.<attr> (post-processing such as prepending packages)."""
-    names = {x.id for x in walk_own(val) if isinstance(x, ast.Name)}
     for x in walk_own(val):
         if isinstance(x, ast.Attribute) and isinstance(x.value, ast.Name) \
                 and x.value.id == result and x.attr == attr:
             return True
-    for nm in names:
+    seen = set()
+    work = [x.id for x in walk_own(val) if isinstance(x, ast.Name)]
+    while work:
+        nm = work.pop()
+        if nm in seen:
+            continue
+        seen.add(nm)
+        if nm in fn_names:
+            return True
         for (st, v) in assignments_to(f.node, nm):
-            if v is not None and isinstance(v, ast.Call) and any(
-                    isinstance(a, ast.Name) and a.id in fn_names
-                    for a in v.args):
-                return True
+            if isinstance(st, ast.With):
+                for it in st.items:
+                    for a in walk_own(it.context_expr):
+                        if isinstance(a, ast.Name) and a.id in fn_names:
+                            return True
+            if v is None:
+                continue
+            for a in walk_own(v):
+                if isinstance(a, ast.Name):
+                    if a.id in fn_names:
+                        return True
+                    work.append(a.id)
     return False
 
 
@@ -472,7 +535,8 @@ def rule_fail(ctx, res, loop):
             if hits_err and not rejoins and cfg.exit in reach and \
                     not any(ld in reach for l in loads
                             for ld in cfg.nodes_of(l)):
-                src = ast.unparse(n.ast)
+                from .. import norm as _norm
+                src = ast.unparse(_norm.subst_locals(f.node, n.ast))
                 if "'empty_'" in src:
                     kinds['conflict'].append(n)
                 elif 'os.path.exists' in src:
